@@ -201,6 +201,7 @@ func runC08(c *wk.Ctx) {
 	e := gen.DefaultEnv()
 	nic := mon.DefaultNIC()
 	var st *stack
+	nStacks := 0
 	idx := int64(0)
 	one := func(f gen.Frame) {
 		idx++
@@ -212,6 +213,8 @@ func runC08(c *wk.Ctx) {
 				st.close()
 			}
 			st = newStack(scratch, nic)
+			nStacks++
+			setLogLevels(nStacks%2 == 0) // every second stack with the library's loggers at debug level
 		}
 		st.n++
 		ref := refdec.Decode(f.B)
